@@ -84,7 +84,6 @@ class Deseasonalizer(_SeriesToSeriesTransformer):
         self : an instance of self
         """
         z = check_series(Z, enforce_univariate=True)
-        self._set_y_index(z)
         sp = check_sp(self.sp)
 
         # apply seasonal decomposition
@@ -97,6 +96,9 @@ class Deseasonalizer(_SeriesToSeriesTransformer):
             extrapolate_trend=0,
         ).seasonal.iloc[:sp]
 
+        # the seasonal components are phased relative to the start of the
+        # training series; only remember it once they have been estimated
+        self._set_y_index(z)
         self._is_fitted = True
         return self
 
@@ -164,8 +166,9 @@ class Deseasonalizer(_SeriesToSeriesTransformer):
         self : an instance of self
         """
         self.check_is_fitted()
-        z = check_series(Z, enforce_univariate=True)
-        self._set_y_index(z)
+        check_series(Z, enforce_univariate=True)
+        # `seasonal_` stays aligned with the start of the training series,
+        # so the phase reference `_y_index` must not move to the new data
         return self
 
 
@@ -220,7 +223,6 @@ class ConditionalDeseasonalizer(Deseasonalizer):
         """
 
         z = check_series(Z, enforce_univariate=True)
-        self._set_y_index(z)
         sp = check_sp(self.sp)
 
         # set default condition
@@ -248,5 +250,6 @@ class ConditionalDeseasonalizer(Deseasonalizer):
                 np.zeros(self.sp) if self.model == "additive" else np.ones(self.sp)
             )
 
+        self._set_y_index(z)
         self._is_fitted = True
         return self
